@@ -52,7 +52,7 @@ def budget(tier):
 
 
 def essential_labels(tier):
-    return ["n_0", "n_not_multiple_of_block", "two_blocks_in_kernel", "restricted_line_in_block", "include_file", "helper_function", "form:decl", "form:for", "kernels_2plus", "no_vectorised_block_in_source"]
+    return ["n_0", "n_not_multiple_of_block", "two_blocks_in_kernel", "restricted_line_in_block", "include_file", "helper_function", "form:decl", "form:for", "kernels_2plus", "no_vectorised_block_in_source", "annotated_extra_header", "restricted_line_in_included_file"]
 
 
 @st.composite
@@ -75,6 +75,9 @@ def cases(draw, tier):
             if draw(st.integers(0, 2)) == 0:
                 # the same file named by a second directive with another context list
                 inc["targets2"] = draw(st.lists(st.sampled_from(TARGETS), min_size=1, max_size=4, unique=True))
+            if draw(st.integers(0, 1)) == 0:
+                # the included file carries a context-restricted line of its own
+                inc["line"] = {"targets": draw(st.lists(st.sampled_from(TARGETS), min_size=1, max_size=3, unique=True)), "c": draw(st.integers(1, 9)) * 1000000}
         outer = None
         if draw(st.integers(0, 2)) == 0:
             outer = {"targets": draw(st.lists(st.sampled_from(TARGETS), min_size=1, max_size=3, unique=True)), "c": draw(st.integers(1, 9)) * 10000}
@@ -87,7 +90,11 @@ def cases(draw, tier):
         if kernels[0]["outer"] is None:
             kernels[0]["outer"] = {"targets": draw(st.lists(st.sampled_from(TARGETS), min_size=1, max_size=3, unique=True)), "c": draw(st.integers(1, 9)) * 10000}
         n = max(n, 1)
-    return {"kernels": kernels, "n": n, "block": block}
+    header = None
+    if draw(st.integers(0, 2)) == 0:
+        # annotated text handed over through the extra_headers option instead of sources
+        header = {"targets": draw(st.lists(st.sampled_from(TARGETS), min_size=1, max_size=3, unique=True)), "c": draw(st.integers(1, 9)) * 100000000}
+    return {"kernels": kernels, "n": n, "block": block, "header": header}
 
 
 def strategy(tier):
@@ -102,11 +109,16 @@ VARS = ["ii", "jj", "kk"]
 
 
 def make_source(case):
-    """-> (source text, include files {name: text}, filler lines in order, restricted lines [(text, targets)])"""
-    lines = ["#ifndef XOBJ_STDINT", "#include <stdint.h>", "#endif"]
+    """-> (source text, include files {name: text}, filler lines in order, restricted lines [(text, targets)], header text)"""
+    lines = ["#ifndef XOBJ_STDINT", "#include <stdint.h>", "#endif", "#ifndef VF_HDR", "#define VF_HDR 0", "#endif"]
     files = {}
     fillers = []
     restricted = []
+    header = ""
+    if case.get("header"):
+        t = f"#define VF_HDR {case['header']['c']} /*r0*/ //only_for_context {' '.join(case['header']['targets'])}"
+        restricted.append((t, case["header"]["targets"]))
+        header = "/* text given as extra header */\n" + t + "\n"
     fc = [0]
 
     def filler(indent="    "):
@@ -119,10 +131,13 @@ def make_source(case):
         if k["include"] is not None:
             fname = f"vf_inc_{j}.h"
             files[fname] = f"#define VF_BIAS_{j} {k['include']['bias']}\n/* included file {j} */\n"
+            if k["include"].get("line"):
+                ln_ = k["include"]["line"]
+                files[fname] += f"#define VF_INCL_{j} {ln_['c']} //only_for_context {' '.join(ln_['targets'])}\n"
             lines.append(f"//include_file {fname} for_context {' '.join(k['include']['targets'])}")
             if k["include"].get("targets2"):
                 lines.append(f"//include_file {fname} for_context {' '.join(k['include']['targets2'])}")
-        lines += [f"#ifndef VF_BIAS_{j}", f"#define VF_BIAS_{j} 0", "#endif"]
+        lines += [f"#ifndef VF_BIAS_{j}", f"#define VF_BIAS_{j} 0", "#endif", f"#ifndef VF_INCL_{j}", f"#define VF_INCL_{j} 0", "#endif"]
         if any(b["helper"] for b in k["blocks"]):
             lines.append(f"/*gpufun*/ double vf_helper_{j}(double x, int k)" + "{")
             lines.append("    return 2 * x + k;")
@@ -137,7 +152,7 @@ def make_source(case):
             restricted.append((t, k["outer"]["targets"]))
             lines.append(t)
         if not k["blocks"]:
-            lines.append(f"    y[0] = 2 * x[0] + ({k['scalar_k']}) + VF_BIAS_{j} + vf_outer;")
+            lines.append(f"    y[0] = 2 * x[0] + ({k['scalar_k']}) + VF_BIAS_{j} + VF_INCL_{j} + VF_HDR + vf_outer;")
             lines.append("    cnt[0] = 7;")
         for b, blk in enumerate(k["blocks"]):
             v = VARS[b]
@@ -149,14 +164,14 @@ def make_source(case):
                 lines.append(filler("        "))
             base = f"vf_helper_{j}(x[{v}], {blk['k']})" if blk["helper"] else f"2 * x[{v}] + ({blk['k']})"
             lines.append(f"        cnt[{b} * stride + {v}] += 1;")
-            lines.append(f"        y[{b} * stride + {v}] = {base} + VF_BIAS_{j} + vf_outer;")
+            lines.append(f"        y[{b} * stride + {v}] = {base} + VF_BIAS_{j} + VF_INCL_{j} + VF_HDR + vf_outer;")
             if blk["restricted"] is not None:
                 t = f"        /*r{len(restricted)}*/ y[{b} * stride + {v}] += {blk['restricted']['c']}; //only_for_context {' '.join(blk['restricted']['targets'])}"
                 restricted.append((t, blk["restricted"]["targets"]))
                 lines.append(t)
             lines.append("    }//end_vectorize" if blk["form"] == "for" else "    //end_vectorize")
         lines.append("}")
-    return "\n".join(lines) + "\n", files, fillers, restricted
+    return "\n".join(lines) + "\n", files, fillers, restricted, header
 
 
 def reference(case, j, target, x):
@@ -169,6 +184,10 @@ def reference(case, j, target, x):
     y = np.full(nb * stride, SENT)
     bias = k["include"]["bias"] if k["include"] is not None and target in _inc_targets(k["include"]) else 0
     outer = k["outer"]["c"] if k["outer"] is not None and target in k["outer"]["targets"] else 0
+    if k["include"] is not None and k["include"].get("line") and target in _inc_targets(k["include"]) and target in k["include"]["line"]["targets"]:
+        bias += k["include"]["line"]["c"]
+    if case.get("header") and target in case["header"]["targets"]:
+        bias += case["header"]["c"]
     if not k["blocks"]:
         cnt[0] = 7
         y[0] = 2 * x[0] + k["scalar_k"] + bias + outer
@@ -235,7 +254,11 @@ def run_case(case):
     cbuild.quiet()
     labels = set()
     n, block = case["n"], case["block"]
-    src, files, fillers, restricted = make_source(case)
+    src, files, fillers, restricted, header = make_source(case)
+    if header:
+        labels.add("annotated_extra_header")
+    if any(k["include"] is not None and k["include"].get("line") for k in case["kernels"]):
+        labels.add("restricted_line_in_included_file")
     for fn_, txt in files.items():
         with open(fn_, "w") as f:
             f.write(txt)
@@ -264,7 +287,7 @@ def run_case(case):
     # ---- structure of every specialisation
     texts = {}
     for t in TARGETS:
-        r = sut(specialize_source, src, t, search_in_folders=["."])
+        r = sut(specialize_source, header + src, t, search_in_folders=["."])  # headers and sources are one text
         if is_raised(r):
             return fail("specialize_raised", f"{t}: {r}", f"{t}|{r.key}", labels)
         texts[t] = r
@@ -320,7 +343,7 @@ def run_case(case):
             kerns[f"vfk{j}"] = xo.Kernel(c_name=f"vfk{j}", args=[
                 xo.Arg(xo.Float64, pointer=True, const=True, name="x"), xo.Arg(xo.Float64, pointer=True, name="y"),
                 xo.Arg(xo.Int32, pointer=True, name="cnt"), xo.Arg(xo.Int64, name="n"), xo.Arg(xo.Int64, name="stride")], n_threads="n")
-        r = sut(ctx.add_kernels, sources=[src], kernels=kerns, extra_compile_args=("-O1", "-Wno-unused-function"), extra_link_args=())
+        r = sut(ctx.add_kernels, sources=[src], kernels=kerns, extra_headers=[header] if header else (), extra_compile_args=("-O1", "-Wno-unused-function"), extra_link_args=())
         if is_raised(r):
             return fail("cpu_build_failed", f"{t} ({nthreads} threads): {r}", f"{t}|{r.key}", labels)
         for j in range(nk):
